@@ -618,7 +618,7 @@ B('c07-param16-no-round', 'C07', 'R07.b', PARAMH,
 B('c07-param32-no-lower', 'C07', 'R07.b', PARAMH,
   "    return round(max(0, min(param, 0xffffffff)))", "    return round(min(param, 0xffffffff))")
 B('c07-standardize-upper', 'C07', 'R07.b', MATRIX,
-  "            elif param > 65535.0:\n                param = 65535", "            elif param > 65536.0:\n                param = 65536")
+  "            raw_color.append(param_16(param))", "            raw_color.append(round(param))")
 B('c07-time-raw-100', 'C07', 'R07.c', UNITS,
   "    return logical_time * 1000.0", "    return logical_time * 100.0")
 B('c07-pct-65536', 'C07', 'R07.c', UNITS,
@@ -1162,7 +1162,7 @@ B('c16-string-after-punct', 'C16', 'R16.d', LEX,
 B('c16-comment-substring', 'C16', 'R16.d', LEX,
   "                if u_matched == '#':\n                    break", "                if '#' in u_matched:\n                    break")
 B('c16-rvalue-no-bracket', 'C16', 'R16.e', PARSE,
-  "        if self._current_token.content == '[':\n            return self._rvalue_fn_call(dest, code_gen)\n", "")
+  "        if is_mark and self._current_token.content == '[':\n            return self._rvalue_fn_call(dest, code_gen)\n", "")
 N('c16-name-spec-equivalent', 'C16', LEX,
   "    _NAME_SPEC = r'[a-zA-Z_][a-zA-Z0-9_]*'", "    _NAME_SPEC = r'[_A-Za-z][0-9A-Z_a-z]*'")
 N('c16-punct-reordered', 'C16', LEX,
@@ -1809,3 +1809,22 @@ B('c01-in-list-item-emits-directly', 'C01', 'R04.n', LOOP,
   "            if not self._push_light_names(inner_coder, operand):", "            if not self._push_light_names(code_gen, operand):")
 N('c01-in-list-coder-renamed', 'C01', LOOP,
   "        inner_coder = CodeGen()\n        operand = {", "        item_code = CodeGen()\n        inner_coder = item_code\n        operand = {")
+
+# ------------------------------------------------------------------ round 7
+B('c16-rvalue-brace-test-on-text-only', 'C16', 'R16.k', PARSE,
+  "        if is_mark and self._current_token.content == '{':", "        if self._current_token.content == '{':")
+B('c19-rvalue-minus-test-on-text-only', 'C19', 'R16.k', PARSE,
+  "        uminus = is_mark and self._current_token.content == '-'", "        uminus = self._current_token.content == '-'")
+B('c18-action-all-by-text', 'C18', 'R16.k', PARSE,
+  "        if self._current_token.is_a(TokenTypes.ALL):\n            return self._all_operand()",
+  "        if self._current_token.content == 'all':\n            return self._all_operand()")
+B('c16-atom-paren-test-on-text-only', 'C16', 'R16.k', EXPR,
+  "        if is_mark and str(self.current_token) == '(':", "        if str(self.current_token) == '(':")
+N('c16-rvalue-mark-test-inline', 'C16', PARSE,
+  "        if is_mark and self._current_token.content == '{':",
+  "        if self._current_token.is_a(TokenTypes.MARK) and self._current_token.content == '{':")
+B('c02-constant-pushed-by-type', 'C02', 'R02.j', PARSE,
+  "            if move_inst is OpCode.MOVEQ:\n                # A constant, which may be a string: never a variable's name.\n                code_gen.add_instruction(OpCode.PUSHQ, value)\n            else:\n                code_gen.push(value)",
+  "            code_gen.push(value)")
+B('c19-println-not-a-routine-body', 'C19', 'R19.i', TOKEN,
+  "            TokenTypes.PRINT, TokenTypes.PRINTF, TokenTypes.PRINTLN,\n            TokenTypes.PAUSE,", "            TokenTypes.PRINT, TokenTypes.PRINTF,\n            TokenTypes.PAUSE,")
